@@ -350,6 +350,13 @@ theorem host_match_is_one_expansion_of_the_configured_pattern (c : HostCase) (p1
   cases h1 : hostProvisionName c p1 <;> cases h2 : hostProvisionName c p2 <;> simp [h1, h2] at h
   exact ⟨h.1.symm, h.2.symm⟩
 
+/-- **reverse proxy: what is dialled is the address parse of ONE `ReplaceAll` of the configured dial template**
+    (behind `vars {v: …}`; by `single_pass` one left-to-right cut of the CONFIGURED text — a backend name taken from
+    a request header or a variable reaches `caddy.ParseNetworkAddress` as bytes). -/
+theorem dialled_address_is_the_parse_of_one_expansion (dialT varT : Bytes) (r : HttpReq) :
+    ∃ e, replaceAll dialT [] (dialEnv varT r) = .ok e ∧ dialServe false dialT varT r = C13.parseNetworkAddress e :=
+  ⟨_, expandAll_exact _ dialT, dial_is_one_expansion_of_configured_template _ dialT⟩
+
 /-- **provider rows hand request text over untouched.** What the header / query-parameter / path /
     `http.vars.` rows of the modelled provider chain return is the request's bytes; the `file.` provider
     returns the file's bytes minus one trailing newline, and an unreadable file is known and empty. -/
